@@ -1,6 +1,7 @@
 package checks
 
 import (
+	"fmt"
 	"go/ast"
 	"go/token"
 	"go/types"
@@ -33,6 +34,7 @@ func init() {
 		Mutant{"getindex-byte-bound-removed", BA, "if i < 0 || i >= bA.Size() || i>>3 >= len(bA.Elems) {\n\t\treturn false\n\t}\n\treturn bA.Elems", "if i < 0 || i >= bA.Size() {\n\t\treturn false\n\t}\n\treturn bA.Elems", "(*CompactBitArray).GetIndex index bA.Elems"},
 		Mutant{"gas-consumer-must-unmarshal", "tm2/pkg/sdk/auth/ante.go", "if err := amino.Unmarshal(sig, &multisignature); err != nil {\n\t\t\treturn abciResult(std.ErrUnauthorized(\"invalid multisignature encoding\"))\n\t\t}", "amino.MustUnmarshal(sig, &multisignature)", "must-call tm2/pkg/amino.MustUnmarshal"},
 		Mutant{"gas-consumer-size-check-weakened", "tm2/pkg/sdk/auth/ante.go", "if len(pubkey.PubKeys) != size {", "if len(pubkey.PubKeys) > size {", "consumeMultisignatureVerificationGas index pubkey.PubKeys"},
+		Mutant{"popcount-counts-all-positions", BA, "for i := range index {\n\t\tif bA.GetIndex(i) {\n\t\t\tnumTrueValues++", "for i := range bA.Size() {\n\t\tif bA.GetIndex(i) {\n\t\t\tnumTrueValues++", "popcount-exact"},
 		Mutant{"secp-verifies-other-message", "tm2/pkg/crypto/secp256k1/secp256k1_nocgo.go", "return psig.Verify(crypto.Sha256(msg), pub)", "return psig.Verify(crypto.Sha256(sigStr), pub)", "simple-verify tm2/pkg/crypto/secp256k1"},
 	)
 }
@@ -98,6 +100,15 @@ func c44(c *engine.Ctx) {
 			}
 		})
 		c.Check("nil-safe", f.Name, f.Pos(), bad == "", bad)
+	}
+
+	// popcount-exact: the count compared with K must count only marked positions
+	// below the requested index: NumTrueBitsBefore reads bits exclusively through
+	// GetIndex(i) with i < index and returns a counter that only ever grows by one
+	// under such a test (a byte-wise popcount would also count padding bits).
+	if f := p.Func(B + "NumTrueBitsBefore"); f != nil {
+		ok, why := c44PopcountExact(f)
+		c.Check("popcount-exact", f.Name, f.Pos(), ok, why)
 	}
 
 	// ---- (2) multisig acceptance ----
@@ -408,7 +419,7 @@ func c44IsParam(f *engine.Fn, o types.Object) (int, bool) {
 // c44IndexSafe decides X[idx].
 func c44IndexSafe(f *engine.Fn, site ast.Node, X, idx ast.Expr) (bool, string) {
 	info := f.Info()
-	g := f.Graph()
+	_ = f.Graph()
 	st := f.SiteOf(site)
 	io := engine.ObjOf(info, idx)
 	// D1: idx is the key of a range over X, or over an int proved equal to / not above len(X)
@@ -430,21 +441,20 @@ func c44IndexSafe(f *engine.Fn, site ast.Node, X, idx ast.Expr) (bool, string) {
 		if t := info.TypeOf(rng.X); t != nil {
 			if b, isB := t.Underlying().(*types.Basic); isB && b.Info()&types.IsInteger != 0 && st != nil {
 				no := engine.ObjOf(info, rng.X)
-				if no != nil && len(authdAssignsTo(f, no)) <= 1 {
-					for _, gt := range g.Gates(st) {
-						for _, fc := range authdFacts(gt) {
-							l, op, r, isCmp := authdCmp(fc)
-							if !isCmp {
-								continue
-							}
-							if engine.ObjOf(info, l) == no {
-								l, r, op = r, l, engine.Flip(op)
-							}
-							// now: len(X) op N
-							if call, is := authdCalleeIs(info, l, "builtin.len"); is && len(call.Args) == 1 && authdSameExpr(call.Args[0], X) && engine.ObjOf(info, r) == no {
-								if op == token.EQL || op == token.GEQ {
-									return true, "index ranges over " + no.Name() + " and a dominating test establishes len(" + engine.ExprString(X) + ") " + op.String() + " " + no.Name()
-								}
+				xp := c44Path(f, nil, X)
+				if no != nil && len(authdAssignsTo(f, no)) <= 1 && xp != "" {
+					for _, fc := range c44FactsAt(f, st, 2) {
+						l, op, r, isCmp := authdCmp(fc.authdFact)
+						if !isCmp {
+							continue
+						}
+						if fc.obj(l) == no {
+							l, r, op = r, l, engine.Flip(op)
+						}
+						// now: len(X) op N
+						if fc.lenPath(l) == xp && fc.obj(authdResolveLocal(fc.fn, r)) == no || fc.lenPath(l) == xp && fc.obj(r) == no {
+							if op == token.EQL || op == token.GEQ {
+								return true, "index ranges over " + no.Name() + " and a dominating test establishes len(" + engine.ExprString(X) + ") " + op.String() + " " + no.Name()
 							}
 						}
 					}
@@ -452,26 +462,34 @@ func c44IndexSafe(f *engine.Fn, site ast.Node, X, idx ast.Expr) (bool, string) {
 			}
 		}
 	}
-	// D2: a dominating idx < len(X) with idx >= 0
+	// D2: a dominating idx < len(X) with idx >= 0 (len possibly hoisted into a local)
 	if st != nil {
-		for _, gt := range g.Gates(st) {
-			for _, fc := range authdFacts(gt) {
-				l, op, r, isCmp := authdCmp(fc)
-				if !isCmp {
-					continue
-				}
-				if _, is := authdCalleeIs(info, l, "builtin.len"); is {
-					l, r, op = r, l, engine.Flip(op)
-				}
-				call, is := authdCalleeIs(info, r, "builtin.len")
-				if !is || len(call.Args) != 1 || !authdSameExpr(call.Args[0], X) || !authdSameExpr(l, idx) || op != token.LSS {
-					continue
-				}
-				if c44NonNeg(f, st, idx) {
-					return true, "dominated by `" + engine.ExprString(idx) + " < len(" + engine.ExprString(X) + ")` with a non-negative index"
-				}
-				return false, "upper bound is tested but the index `" + engine.ExprString(idx) + "` may be negative"
+		xp := c44Path(f, nil, X)
+		for _, fc := range c44FactsAt(f, st, 1) {
+			if fc.fn != f {
+				continue
 			}
+			l, op, r, isCmp := authdCmp(fc.authdFact)
+			if !isCmp {
+				continue
+			}
+			if fc.lenPath(l) != "" && fc.lenPath(r) == "" {
+				l, r, op = r, l, engine.Flip(op)
+			}
+			lp := fc.lenPath(r)
+			sameLen := lp != "" && lp == xp
+			if !sameLen {
+				if call, is := authdCalleeIs(info, authdResolveLocal(f, r), "builtin.len"); is && len(call.Args) == 1 && authdSameExpr(call.Args[0], X) {
+					sameLen = true
+				}
+			}
+			if !sameLen || !authdSameExpr(l, idx) || op != token.LSS {
+				continue
+			}
+			if c44NonNeg(f, st, idx) {
+				return true, "dominated by `" + engine.ExprString(idx) + " < len(" + engine.ExprString(X) + ")` with a non-negative index"
+			}
+			return false, "upper bound is tested but the index `" + engine.ExprString(idx) + "` may be negative"
 		}
 	}
 	return false, "no recognised guard bounds `" + engine.ExprString(idx) + "` by len(" + engine.ExprString(X) + "): a crafted (amino-decoded) value makes this index run out of range"
@@ -634,29 +652,33 @@ func c44Accept(c *engine.Ctx, f *engine.Fn) {
 		// decode error
 		r := g.CheckedGuard(dec, st)
 		c.Check("accept-decoded", key, rs.Pos(), r.OK && authdErrNotNil(r.Cond) && !r.OnTrue, "acceptance must be reached only when amino.Unmarshal returned nil (found: "+c44CondStr(r)+")")
-		// facts
+		// facts (helper transparent: a predicate helper known true contributes its own)
 		var sizeEq, thresh bool
-		for _, gt := range g.Gates(st) {
-			for _, fc := range authdFacts(gt) {
-				l, op, rr, isCmp := authdCmp(fc)
-				if !isCmp {
-					continue
+		recvPath := fmt.Sprintf("%p", recv) + ".PubKeys"
+		sigBA := fmt.Sprintf("%p", sigObj) + ".BitArray"
+		for _, fc := range c44FactsAt(f, st, 2) {
+			l, op, rr, isCmp := authdCmp(fc.authdFact)
+			if !isCmp {
+				continue
+			}
+			// len(pk.PubKeys) == size
+			for _, pr := range [][2]ast.Expr{{l, rr}, {rr, l}} {
+				if op == token.EQL && fc.lenPath(pr[0]) == recvPath && recvPath != "" && fc.obj(authdResolveLocal(fc.fn, pr[1])) == sizeObj {
+					sizeEq = true
 				}
-				// len(pk.PubKeys) == size
-				for _, pr := range [][2]ast.Expr{{l, rr}, {rr, l}} {
-					if call, is := authdCalleeIs(info, pr[0], "builtin.len"); is && len(call.Args) == 1 && op == token.EQL {
-						if se, isSel := ast.Unparen(call.Args[0]).(*ast.SelectorExpr); isSel && se.Sel.Name == "PubKeys" && engine.ObjOf(info, se.X) == recv && engine.ObjOf(info, pr[1]) == sizeObj {
-							sizeEq = true
-						}
-					}
+				if op == token.EQL && fc.lenPath(pr[0]) == recvPath && recvPath != "" && fc.obj(pr[1]) == sizeObj {
+					sizeEq = true
 				}
-				// NumTrueBitsBefore(size) >= int(pk.K)
-				lo, ro, o := l, rr, op
-				if _, is := authdCalleeIs(info, ro, "tm2/pkg/crypto/multisig/bitarray.(*CompactBitArray).NumTrueBitsBefore"); is {
-					lo, ro, o = ro, lo, engine.Flip(o)
-				}
-				if call, is := authdCalleeIs(info, lo, "tm2/pkg/crypto/multisig/bitarray.(*CompactBitArray).NumTrueBitsBefore"); is && len(call.Args) == 1 &&
-					engine.ObjOf(info, call.Args[0]) == sizeObj && engine.Mentions(info, call.Fun, sigObj) && o == token.GEQ && c44IsK(info, ro, recv) {
+			}
+			// NumTrueBitsBefore(size) >= int(pk.K)
+			lo, ro, o := authdResolveLocal(fc.fn, l), authdResolveLocal(fc.fn, rr), op
+			const ntb = "tm2/pkg/crypto/multisig/bitarray.(*CompactBitArray).NumTrueBitsBefore"
+			if _, is := authdCalleeIs(fc.info(), ro, ntb); is {
+				lo, ro, o = ro, lo, engine.Flip(o)
+			}
+			if call, is := authdCalleeIs(fc.info(), lo, ntb); is && len(call.Args) == 1 && o == token.GEQ {
+				se, _ := ast.Unparen(call.Fun).(*ast.SelectorExpr)
+				if se != nil && fc.path(se.X) == sigBA && sigBA != "" && (fc.obj(call.Args[0]) == sizeObj || fc.obj(authdResolveLocal(fc.fn, call.Args[0])) == sizeObj) && c44IsKF(fc, ro, recv) {
 					thresh = true
 				}
 			}
@@ -724,7 +746,7 @@ func c44Accept(c *engine.Ctx, f *engine.Fn) {
 		// enclosing conditions: GetIndex(i) and bound tests on the counter only
 		marked := false
 		if ok {
-			for _, fc := range authdEnclosingFacts(loop.Body, inner.Call) {
+			for _, fc := range c44LoopFacts(f, loop, inner) {
 				if call, is := authdCalleeIs(info, fc.E, "tm2/pkg/crypto/multisig/bitarray.(*CompactBitArray).GetIndex"); is && !fc.Neg && len(call.Args) == 1 &&
 					engine.ObjOf(info, call.Args[0]) == engine.ObjOf(info, loop.Key) && engine.Mentions(info, call.Fun, sigObj) {
 					marked = true
@@ -747,7 +769,7 @@ func c44Accept(c *engine.Ctx, f *engine.Fn) {
 			adv := false
 			ast.Inspect(loop.Body, func(n ast.Node) bool {
 				if ids, isID := n.(*ast.IncDecStmt); isID && ids.Tok == token.INC && engine.ObjOf(info, ids.X) == counter && counter != nil {
-					for _, fc := range authdEnclosingFacts(loop.Body, ids) {
+					for _, fc := range c44LoopFacts(f, loop, f.SiteOf(ids)) {
 						if _, is := authdCalleeIs(info, fc.E, "tm2/pkg/crypto/multisig/bitarray.(*CompactBitArray).GetIndex"); is && !fc.Neg {
 							adv = true
 						}
@@ -784,4 +806,325 @@ func c44IsK(info *types.Info, e ast.Expr, recv types.Object) bool {
 	}
 	se, ok := e.(*ast.SelectorExpr)
 	return ok && se.Sel.Name == "K" && engine.ObjOf(info, se.X) == recv
+}
+
+// c44F is a fact known to hold at a site, possibly imported from a boolean
+// predicate helper (then fn/info are the helper's and sub maps the helper's
+// parameters to the caller's objects).
+type c44F struct {
+	authdFact
+	fn  *engine.Fn
+	sub map[types.Object]types.Object
+}
+
+func (x c44F) info() *types.Info { return x.fn.Info() }
+
+// obj resolves an identifier of the fact's function to the caller's object.
+func (x c44F) obj(e ast.Expr) types.Object {
+	o := engine.ObjOf(x.info(), e)
+	if _, isID := ast.Unparen(e).(*ast.Ident); !isID {
+		return nil
+	}
+	if m, ok := x.sub[o]; ok {
+		return m
+	}
+	return o
+}
+
+// path renders a selector chain rooted at a variable as "<root>.f.g" in the
+// caller's terms ("" when e is not such a chain). Single-definition locals of
+// the fact's function are resolved first.
+func (x c44F) path(e ast.Expr) string {
+	return c44Path(x.fn, x.sub, e)
+}
+
+func c44Path(f *engine.Fn, sub map[types.Object]types.Object, e ast.Expr) string {
+	e = ast.Unparen(e)
+	switch v := e.(type) {
+	case *ast.Ident:
+		o := f.Info().ObjectOf(v)
+		if o == nil {
+			return ""
+		}
+		if m, ok := sub[o]; ok {
+			o = m
+		}
+		return fmt.Sprintf("%p", o)
+	case *ast.SelectorExpr:
+		if r := c44Path(f, sub, v.X); r != "" {
+			return r + "." + v.Sel.Name
+		}
+	}
+	return ""
+}
+
+// c44FactsAt returns the facts holding at st: the gates of st in f, plus, for
+// every gate that is a call of a package-local boolean predicate known to be
+// true, the facts under which that predicate returns true (one level of
+// helpers per depth).
+func c44FactsAt(f *engine.Fn, st *engine.Site, depth int) []c44F {
+	var out []c44F
+	for _, gt := range f.Graph().Gates(st) {
+		for _, fc := range authdFacts(gt) {
+			out = append(out, c44Expand(c44F{fc, f, nil}, depth)...)
+		}
+	}
+	return out
+}
+
+func c44Expand(x c44F, depth int) []c44F {
+	out := []c44F{x}
+	if x.Neg || depth <= 0 {
+		return out
+	}
+	call, ok := ast.Unparen(x.E).(*ast.CallExpr)
+	if !ok {
+		return out
+	}
+	st := x.fn.SiteOf(call)
+	if st == nil {
+		return out
+	}
+	fn, _ := st.Callee.(*types.Func)
+	h := x.fn.Prog.FnOf(fn)
+	if h == nil || h == x.fn {
+		return out
+	}
+	// map h's operands to the caller's objects
+	hops := authdOperands(h)
+	var args []ast.Expr
+	if se, isSel := ast.Unparen(call.Fun).(*ast.SelectorExpr); isSel {
+		if sel, ok := x.info().Selections[se]; ok && sel.Kind() == types.MethodVal {
+			args = append(args, se.X)
+		}
+	}
+	args = append(args, call.Args...)
+	sub := map[types.Object]types.Object{}
+	for i, a := range args {
+		if i >= len(hops) || hops[i] == nil {
+			continue
+		}
+		if len(authdAssignsTo(h, hops[i])) != 0 {
+			return out // reassigned parameter: no mapping
+		}
+		if o := x.obj(a); o != nil {
+			sub[hops[i]] = o
+		}
+	}
+	// the single way h returns true
+	var trueFacts []c44F
+	nTrue := 0
+	for _, rs := range authdReturns(h) {
+		if len(rs.Results) != 1 {
+			return out
+		}
+		if bv, isLit := authdIsBoolLit(h.Info(), rs.Results[0]); isLit && !bv {
+			continue
+		}
+		nTrue++
+		rst := h.SiteOf(rs)
+		if rst == nil {
+			return out
+		}
+		for _, gt := range h.Graph().Gates(rst) {
+			for _, fc := range authdFacts(gt) {
+				trueFacts = append(trueFacts, c44Expand(c44F{fc, h, sub}, depth-1)...)
+			}
+		}
+		if _, isLit := authdIsBoolLit(h.Info(), rs.Results[0]); !isLit {
+			for _, cj := range engine.Conjuncts(rs.Results[0], token.LAND) {
+				trueFacts = append(trueFacts, c44Expand(c44F{authdStripNot(cj, false), h, sub}, depth-1)...)
+			}
+		}
+	}
+	if nTrue == 1 {
+		out = append(out, trueFacts...)
+	}
+	return out
+}
+
+// c44LenOf: e (in x's function, locals resolved) is len(<path>); returns the path.
+func (x c44F) lenPath(e ast.Expr) string {
+	e = authdResolveLocal(x.fn, e)
+	call, is := authdCalleeIs(x.info(), e, "builtin.len")
+	if !is || len(call.Args) != 1 {
+		return ""
+	}
+	return x.path(call.Args[0])
+}
+
+// c44IsKF: e (in the fact's function) is K of the receiver key, possibly
+// converted and/or hoisted into a local.
+func c44IsKF(x c44F, e ast.Expr, recv types.Object) bool {
+	e = ast.Unparen(authdResolveLocal(x.fn, e))
+	if call, ok := e.(*ast.CallExpr); ok && len(call.Args) == 1 {
+		if tv, ok := x.info().Types[call.Fun]; ok && tv.IsType() {
+			return c44IsKF(x, call.Args[0], recv)
+		}
+		return false
+	}
+	se, ok := e.(*ast.SelectorExpr)
+	return ok && se.Sel.Name == "K" && x.obj(se.X) == recv
+}
+
+// c44LoopFacts: the facts holding at st that are decided inside the loop body
+// (CFG gates, so guard clauses with `continue` count like enclosing ifs).
+func c44LoopFacts(f *engine.Fn, loop *ast.RangeStmt, st *engine.Site) []authdFact {
+	var out []authdFact
+	if st == nil {
+		return nil
+	}
+	for _, gt := range f.Graph().Gates(st) {
+		if !containsExpr(loop.Body, gt.Cond) {
+			continue
+		}
+		out = append(out, authdFacts(gt)...)
+	}
+	return out
+}
+
+func c44PopcountExact(f *engine.Fn) (bool, string) {
+	info := f.Info()
+	g := f.Graph()
+	recv := authdOperands(f)[0]
+	index := paramObj(f, 0)
+	if recv == nil || index == nil {
+		return false, "unexpected signature"
+	}
+	if len(authdAssignsTo(f, index)) != 0 {
+		return false, "the index parameter is reassigned"
+	}
+	// no direct access to the representation
+	direct := ""
+	engine.InspectBody(f, func(n ast.Node) {
+		if se, ok := n.(*ast.SelectorExpr); ok && engine.ObjOf(info, se.X) == recv {
+			if v, isVar := info.ObjectOf(se.Sel).(*types.Var); isVar && v.IsField() {
+				direct = "reads `" + engine.ExprString(se) + "` directly: bits must be read through GetIndex so that positions at or beyond the requested index (and padding bits) are never counted"
+			}
+		}
+	})
+	if direct != "" {
+		return false, direct
+	}
+	// the returned counter
+	var counter types.Object
+	for _, rs := range authdReturns(f) {
+		if len(rs.Results) != 1 {
+			return false, "unexpected return"
+		}
+		if v, isC := authdConstInt(info, rs.Results[0]); isC {
+			if v != 0 {
+				return false, "returns a non-zero constant"
+			}
+			continue
+		}
+		o := engine.ObjOf(info, rs.Results[0])
+		if _, isID := ast.Unparen(rs.Results[0]).(*ast.Ident); !isID || o == nil || (counter != nil && o != counter) {
+			return false, "does not return a single counter variable"
+		}
+		counter = o
+	}
+	if counter == nil {
+		return false, "no counter is returned"
+	}
+	incs := 0
+	bad := ""
+	engine.InspectBody(f, func(n ast.Node) {
+		switch x := n.(type) {
+		case *ast.AssignStmt:
+			for i, l := range x.Lhs {
+				if engine.ObjOf(info, l) != counter {
+					continue
+				}
+				if _, isID := ast.Unparen(l).(*ast.Ident); !isID {
+					continue
+				}
+				if (x.Tok == token.DEFINE || x.Tok == token.ASSIGN) && len(x.Rhs) == len(x.Lhs) {
+					if v, isC := authdConstInt(info, x.Rhs[i]); isC && v == 0 {
+						continue
+					}
+				}
+				if x.Tok == token.ADD_ASSIGN && len(x.Rhs) == 1 {
+					if v, isC := authdConstInt(info, x.Rhs[0]); isC && v == 1 {
+						if w := c44CountStep(f, g, f.SiteOf(x), recv, index); w != "" {
+							bad = w
+						} else {
+							incs++
+						}
+						continue
+					}
+				}
+				bad = "the counter is updated by `" + x.Tok.String() + "`, not by +1 per marked position"
+			}
+		case *ast.IncDecStmt:
+			if engine.ObjOf(info, x.X) != counter {
+				return
+			}
+			if x.Tok != token.INC {
+				bad = "the counter is decremented"
+				return
+			}
+			if w := c44CountStep(f, g, f.SiteOf(x), recv, index); w != "" {
+				bad = w
+			} else {
+				incs++
+			}
+		}
+	})
+	if bad != "" {
+		return false, bad
+	}
+	if incs == 0 {
+		return false, "the counter never advances"
+	}
+	return true, "counts +1 exactly under GetIndex(i), i < index"
+}
+
+// c44CountStep: the increment at st happens under recv.GetIndex(i) for a loop
+// variable i bounded by index; "" when fine.
+func c44CountStep(f *engine.Fn, g *engine.Graph, st *engine.Site, recv, index types.Object) string {
+	info := f.Info()
+	if st == nil {
+		return "increment not located in the CFG"
+	}
+	var iv types.Object
+	for _, gt := range g.Gates(st) {
+		for _, fc := range authdFacts(gt) {
+			if call, is := authdCalleeIs(info, fc.E, "tm2/pkg/crypto/multisig/bitarray.(*CompactBitArray).GetIndex"); is && !fc.Neg && len(call.Args) == 1 {
+				if se, isSel := ast.Unparen(call.Fun).(*ast.SelectorExpr); isSel && engine.ObjOf(info, se.X) == recv {
+					if _, isID := ast.Unparen(call.Args[0]).(*ast.Ident); isID {
+						iv = engine.ObjOf(info, call.Args[0])
+					}
+				}
+			}
+		}
+	}
+	if iv == nil {
+		return "the counter advances without a GetIndex(i) test of the position"
+	}
+	// i < index: range over index, or a dominating comparison
+	bounded := false
+	engine.InspectBody(f, func(n ast.Node) {
+		if rs, ok := n.(*ast.RangeStmt); ok && rs.Key != nil && rs.Tok == token.DEFINE && engine.ObjOf(info, rs.Key) == iv && engine.ObjOf(info, rs.X) == index && containsExpr(rs.Body, st.Node) {
+			bounded = true
+		}
+	})
+	for _, gt := range g.Gates(st) {
+		for _, fc := range authdFacts(gt) {
+			l, op, r, isCmp := authdCmp(fc)
+			if !isCmp {
+				continue
+			}
+			if engine.ObjOf(info, r) == iv {
+				l, r, op = r, l, engine.Flip(op)
+			}
+			if engine.ObjOf(info, l) == iv && engine.ObjOf(info, r) == index && op == token.LSS {
+				bounded = true
+			}
+		}
+	}
+	if !bounded {
+		return "the counted position is not bounded by the requested index"
+	}
+	return ""
 }
